@@ -4,6 +4,7 @@ import Mpir.Model.DivZ
 import Mathlib.Tactic.Ring
 import Mathlib.Tactic.Linarith
 import Mathlib.Tactic.SplitIfs
+import Mathlib.Tactic.Tauto
 namespace Mpir.DivZ
 open Mpir
 
@@ -527,5 +528,263 @@ theorem cdiv_ceil (n d : Int) (hd : d ≠ 0) :
 theorem mod_range (n d : Int) (hd : d ≠ 0) : 0 ≤ modS n d ∧ modS n d < |d| ∧ d ∣ n - modS n d := by
   unfold modS
   exact ⟨Int.emod_nonneg _ hd, Int.emod_lt_abs _ hd, Int.dvd_self_sub_emod⟩
+
+/-! ### powers of two -/
+
+theorem pow_split (cnt : Nat) : B ^ (cnt / 64) * 2 ^ (cnt % 64) = 2 ^ cnt := by
+  rw [B_pow, ← Nat.pow_add]; congr 1; omega
+
+theorem div_split (a cnt : Nat) : a / B ^ (cnt / 64) / 2 ^ (cnt % 64) = a / 2 ^ cnt := by
+  rw [Nat.div_div_eq_div_mul, pow_split]
+
+theorem mod_split (a cnt : Nat) :
+    a % 2 ^ cnt = a % B ^ (cnt / 64) + B ^ (cnt / 64) * (a / B ^ (cnt / 64) % 2 ^ (cnt % 64)) := by
+  rw [← pow_split cnt, Nat.mod_mul]
+
+theorem Bpow_pos (k : Nat) : 0 < B ^ k := Nat.pow_pos (by decide)
+
+theorem lt_two_pow_of_size {a cnt : Nat} (h : sizeNat a ≤ cnt / 64) : a < 2 ^ cnt := by
+  have h1 := (sizeNat_le_iff a _).mp h
+  have h2 : B ^ (cnt / 64) ≤ B ^ (cnt / 64) * 2 ^ (cnt % 64) := Nat.le_mul_of_pos_right _ (Nat.pow_pos (by decide))
+  rw [pow_split] at h2; omega
+
+theorem two_pow_dvd_Bsucc (cnt : Nat) : 2 ^ cnt ∣ B ^ (cnt / 64 + 1) := by
+  rw [B_pow]; exact Nat.pow_dvd_pow 2 (by omega)
+
+theorem mod_Bsucc_mod (a cnt : Nat) : (a % B ^ (cnt / 64 + 1)) % (B ^ (cnt / 64) * 2 ^ (cnt % 64)) = a % 2 ^ cnt := by
+  rw [pow_split]; exact Nat.mod_mod_of_dvd a (two_pow_dvd_Bsucc cnt)
+
+theorem limb_mod (h cnt : Nat) : (h % B) % 2 ^ (cnt % 64) = h % 2 ^ (cnt % 64) := by
+  apply Nat.mod_mod_of_dvd
+  unfold B; exact Nat.pow_dvd_pow 2 (by omega)
+
+theorem low_bits_ne_zero_iff (a cnt : Nat) :
+    (a % B ^ (cnt / 64) ≠ 0 ∨ a / B ^ (cnt / 64) % 2 ^ (cnt % 64) ≠ 0) ↔ a % 2 ^ cnt ≠ 0 := by
+  rw [mod_split a cnt]
+  have hp := Bpow_pos (cnt / 64)
+  generalize a % B ^ (cnt / 64) = p
+  generalize a / B ^ (cnt / 64) % 2 ^ (cnt % 64) = q
+  generalize B ^ (cnt / 64) = b at *
+  simp only [ne_eq, Nat.add_eq_zero_iff, Nat.mul_eq_zero]
+  constructor
+  · rintro (h | h) ⟨h1, h2 | h2⟩ <;> omega
+  · intro h; by_cases h1 : p = 0
+    · right; intro h2; exact h ⟨h1, Or.inr h2⟩
+    · exact Or.inl h1
+
+theorem neg_mod_pow {a cnt : Nat} (h : a % 2 ^ cnt ≠ 0) :
+    a % B ^ (cnt / 64 + 1) ≠ 0 ∧
+    (B ^ (cnt / 64 + 1) - a % B ^ (cnt / 64 + 1)) % (B ^ (cnt / 64) * 2 ^ (cnt % 64)) = 2 ^ cnt - a % 2 ^ cnt := by
+  rw [pow_split]
+  obtain ⟨k, hk⟩ := two_pow_dvd_Bsucc cnt
+  have hMpos := Bpow_pos (cnt / 64 + 1)
+  generalize B ^ (cnt / 64 + 1) = M at *
+  generalize hm : 2 ^ cnt = m at *
+  have hmpos : 0 < m := by rw [← hm]; exact Nat.pow_pos (by decide)
+  subst hk
+  have ht : (a % (m * k)) % m = a % m := Nat.mod_mod_of_dvd a (Dvd.intro k rfl)
+  generalize hr : a % (m * k) = r at *
+  generalize a % m = t at *
+  have hkpos : 0 < k := by
+    rcases Nat.eq_zero_or_pos k with h0 | h0
+    · subst h0; simp at hMpos
+    · exact h0
+  have hrlt : r < m * k := by rw [← hr]; exact Nat.mod_lt _ (Nat.mul_pos hmpos hkpos)
+  refine ⟨by intro h0; rw [h0, Nat.zero_mod] at ht; omega, ?_⟩
+  have hdm := Nat.div_add_mod r m
+  have hj : r / m < k := (Nat.div_lt_iff_lt_mul hmpos).mpr (by rw [Nat.mul_comm]; exact hrlt)
+  obtain ⟨e, he⟩ := Nat.exists_eq_add_of_lt hj
+  have hlt : r % m < m := Nat.mod_lt _ hmpos
+  have : m * k - r = m * e + (m - r % m) := by
+    subst he
+    have : m * (r / m + e + 1) = m * (r / m) + m * e + m := by ring
+    omega
+  rw [this, Nat.mul_add_mod, ht, Nat.mod_eq_of_lt (by omega)]
+
+theorem tdiv_natCast (x : Int) (u : Nat) :
+    Int.tdiv x u = if 0 ≤ x then ((x.natAbs / u : Nat) : Int) else -((x.natAbs / u : Nat) : Int) := by
+  have hq := tdiv_sign_mag x u
+  have hy0 : ¬ ((u : Int) < 0) := by omega
+  simp only [Int.natAbs_natCast, hy0, iff_false, not_lt] at hq
+  exact hq
+
+theorem tmod_natCast (x : Int) (u : Nat) :
+    Int.tmod x u = if 0 ≤ x then ((x.natAbs % u : Nat) : Int) else -((x.natAbs % u : Nat) : Int) := by
+  have hr := tmod_sign_mag x u
+  simp only [Int.natAbs_natCast] at hr
+  exact hr
+
+theorem wsize_le_iff (x : Int) (cnt : Nat) :
+    ((siz x).natAbs : Int) - ((cnt / 64 : Nat) : Int) ≤ 0 ↔ sizeNat x.natAbs ≤ cnt / 64 := by
+  rw [siz_natAbs]; omega
+
+theorem tdiv_q_2exp_eq (s : Store) (w u cnt : Nat) :
+    tdiv_q_2exp s w u cnt = s.set w (Int.tdiv (s u) ((2 ^ cnt : Nat) : Int)) := by
+  unfold tdiv_q_2exp
+  simp only [wsize_le_iff, tdiv_natCast, ge_iff_le, siz_nonneg_iff]
+  split
+  · rename_i h
+    rw [Nat.div_eq_of_lt (lt_two_pow_of_size h)]; simp
+  · have e : (if cnt % 64 ≠ 0 then (s u).natAbs / B ^ (cnt / 64) / 2 ^ (cnt % 64) else (s u).natAbs / B ^ (cnt / 64)) = (s u).natAbs / 2 ^ cnt := by
+      rw [← div_split (s u).natAbs cnt]; split_ifs with hc
+      · rfl
+      · have : cnt % 64 = 0 := by omega
+        rw [this]; simp
+    rw [e]
+
+theorem tdiv_r_2exp_eq (s : Store) (w u cnt : Nat) :
+    tdiv_r_2exp s w u cnt = s.set w (Int.tmod (s u) ((2 ^ cnt : Nat) : Int)) := by
+  unfold tdiv_r_2exp
+  simp only [tmod_natCast, ge_iff_le, siz_nonneg_iff, siz_natAbs, limb_mod]
+  congr 1
+  have e : (if sizeNat (s u).natAbs > cnt / 64 then
+        (if (s u).natAbs / B ^ (cnt / 64) % 2 ^ (cnt % 64) ≠ 0 then
+          (s u).natAbs / B ^ (cnt / 64) % 2 ^ (cnt % 64) * B ^ (cnt / 64) + (s u).natAbs % B ^ (cnt / 64)
+        else (s u).natAbs % B ^ (cnt / 64))
+      else (s u).natAbs) = (s u).natAbs % 2 ^ cnt := by
+    split_ifs with h1 h2
+    · rw [mod_split (s u).natAbs cnt]; ring
+    · rw [mod_split (s u).natAbs cnt]; simp only [ne_eq, not_not] at h2; rw [h2]; simp
+    · rw [Nat.mod_eq_of_lt (lt_two_pow_of_size (by omega))]
+  rw [e]
+
+theorem sameSign_dir (sz dir : Int) (hdir : dir = -1 ∨ dir = 1) :
+    sameSign sz dir ↔ ((dir = -1 ∧ sz < 0) ∨ (dir = 1 ∧ sz ≥ 0)) := by
+  unfold sameSign; rcases hdir with rfl | rfl <;> omega
+
+theorem cfdiv_q_2exp_eq (dir : Int) (hdir : dir = -1 ∨ dir = 1) (s : Store) (w u cnt : Nat) :
+    cfdiv_q_2exp s w u cnt dir = s.set w (specQ dir (s u) ((2 ^ cnt : Nat) : Int)) := by
+  have hpos : (2 ^ cnt : Nat) ≠ 0 := (Nat.pow_pos (by decide)).ne'
+  obtain ⟨hQ, _⟩ := spec_ui dir (Or.inr hdir) (s u) (2 ^ cnt) hpos
+  rw [hQ]
+  unfold cfdiv_q_2exp
+  simp only [wsize_le_iff]
+  have hz : siz (s u) = 0 ↔ s u = 0 := siz_eq_zero
+  have hn : siz (s u) < 0 ↔ s u < 0 := siz_neg_iff
+  have ha : (s u).natAbs = 0 ↔ s u = 0 := Int.natAbs_eq_zero
+  split
+  · rename_i h
+    have hlt := lt_two_pow_of_size h
+    rw [Nat.div_eq_of_lt hlt, Nat.mod_eq_of_lt hlt]
+    congr 1
+    unfold uiAdjust
+    simp only [sameSign_dir _ _ hdir]
+    generalize siz (s u) = sz at *
+    generalize (s u).natAbs = a at *
+    rcases hdir with rfl | rfl <;> simp only [Int.reduceNeg, Int.reduceEq, true_and, false_and, or_false, false_or] <;> split_ifs <;> omega
+  · have e : (if cnt % 64 ≠ 0 then (s u).natAbs / B ^ (cnt / 64) / 2 ^ (cnt % 64) else (s u).natAbs / B ^ (cnt / 64)) = (s u).natAbs / 2 ^ cnt := by
+      rw [← div_split (s u).natAbs cnt]; split_ifs with hc
+      · rfl
+      · have : cnt % 64 = 0 := by omega
+        rw [this]; simp
+    have er : (if cnt % 64 ≠ 0 then
+          (decide (sameSign (siz (s u)) dir) && decide ((s u).natAbs % B ^ (cnt / 64) ≠ 0) ||
+            decide (sameSign (siz (s u)) dir) && decide ((s u).natAbs / B ^ (cnt / 64) % 2 ^ (cnt % 64) ≠ 0))
+        else (decide (sameSign (siz (s u)) dir) && decide ((s u).natAbs % B ^ (cnt / 64) ≠ 0))) =
+        decide (uiAdjust dir ((s u).natAbs % 2 ^ cnt) (siz (s u))) := by
+      have h1 := low_bits_ne_zero_iff (s u).natAbs cnt
+      have h2 := sameSign_dir (siz (s u)) dir hdir
+      rw [Bool.eq_iff_iff, decide_eq_true_eq]
+      unfold uiAdjust
+      by_cases hc : cnt % 64 = 0
+      · simp only [hc, ne_eq, not_true_eq_false, if_false, pow_zero, Nat.mod_one, or_false, Bool.and_eq_true,
+          decide_eq_true_eq, not_false_eq_true] at h1 ⊢
+        rw [← h1, ← h2]; exact and_comm
+      · simp only [hc, ne_eq, not_false_eq_true, if_true, Bool.or_eq_true, Bool.and_eq_true, decide_eq_true_eq] at h1 ⊢
+        rw [← h1, ← h2]
+        constructor
+        · rintro (⟨hp, hx⟩ | ⟨hp, hy⟩)
+          · exact ⟨Or.inl hx, hp⟩
+          · exact ⟨Or.inr hy, hp⟩
+        · rintro ⟨hx | hy, hp⟩
+          · exact Or.inl ⟨hp, hx⟩
+          · exact Or.inr ⟨hp, hy⟩
+    rw [e, er]
+    congr 1
+    by_cases hadj : uiAdjust dir ((s u).natAbs % 2 ^ cnt) (siz (s u))
+    · simp only [hadj, decide_true, if_true, ge_iff_le, siz_nonneg_iff]
+      have : (if (s u).natAbs / 2 ^ cnt ≠ 0 then (s u).natAbs / 2 ^ cnt + 1 else 1) = (s u).natAbs / 2 ^ cnt + 1 := by
+        split_ifs with h0
+        · rfl
+        · simp only [ne_eq, not_not] at h0; rw [h0]
+      rw [this]
+    · simp only [hadj, decide_false, if_false, ge_iff_le, siz_nonneg_iff, Bool.false_eq_true]
+
+theorem negate_iff (a cnt : Nat) (ha : a ≠ 0) :
+    (decide (sizeNat a ≤ cnt / 64) || decide (a % B ^ (cnt / 64) ≠ 0) ||
+      decide ((a / B ^ (cnt / 64) % B) % 2 ^ (cnt % 64) ≠ 0)) = true ↔ a % 2 ^ cnt ≠ 0 := by
+  simp only [Bool.or_eq_true, decide_eq_true_eq, limb_mod]
+  rw [← low_bits_ne_zero_iff a cnt]
+  constructor
+  · rintro ((h | h) | h)
+    · left; rw [Nat.mod_eq_of_lt ((sizeNat_le_iff a _).mp h)]; exact ha
+    · exact Or.inl h
+    · exact Or.inr h
+  · rintro (h | h)
+    · exact Or.inl (Or.inr h)
+    · exact Or.inr h
+
+theorem sub_one_add_one {M r : Nat} (h : r < M) (h0 : r ≠ 0) : M - 1 - r + 1 = M - r ∧ ¬ (M - r ≥ M) := by omega
+
+theorem cfdiv_r_2exp_eq (dir : Int) (hdir : dir = -1 ∨ dir = 1) (s : Store) (w u cnt : Nat) :
+    cfdiv_r_2exp s w u cnt dir = .ok (s.set w (specR dir (s u) ((2 ^ cnt : Nat) : Int))) := by
+  have hpos : (2 ^ cnt : Nat) ≠ 0 := (Nat.pow_pos (by decide)).ne'
+  obtain ⟨_, hR⟩ := spec_ui dir (Or.inr hdir) (s u) (2 ^ cnt) hpos
+  rw [hR]
+  unfold cfdiv_r_2exp
+  dsimp only
+  have hzz : siz (s u) = 0 ↔ s u = 0 := siz_eq_zero
+  have hn : siz (s u) < 0 ↔ s u < 0 := siz_neg_iff
+  have ha0 : (s u).natAbs = 0 ↔ s u = 0 := Int.natAbs_eq_zero
+  have hsd := sameSign_dir (siz (s u)) dir hdir
+  by_cases hz : siz (s u) = 0
+  · have h0 : s u = 0 := hzz.mp hz
+    simp only [hz, if_true]
+    simp [h0]
+  · have hx : s u ≠ 0 := fun h => hz (hzz.mpr h)
+    have ha : (s u).natAbs ≠ 0 := fun h => hx (ha0.mp h)
+    simp only [hz, if_false, siz_natAbs]
+    by_cases hs : sameSign (siz (s u)) dir
+    · have hadj : ∀ m, m ≠ 0 → uiAdjust dir m (siz (s u)) := fun m hm => ⟨hm, hsd.mp hs⟩
+      simp only [hs, not_true_eq_false, if_false]
+      by_cases hm : (s u).natAbs % 2 ^ cnt = 0
+      · have hneg : ¬ ((decide (sizeNat (s u).natAbs ≤ cnt / 64) || decide ((s u).natAbs % B ^ (cnt / 64) ≠ 0) ||
+            decide (((s u).natAbs / B ^ (cnt / 64) % B) % 2 ^ (cnt % 64) ≠ 0)) = true) := by
+          rw [negate_iff _ _ ha]; simpa using hm
+        simp only [hneg, Bool.false_eq_true, not_false_eq_true, if_true, hm]
+      · have hneg : (decide (sizeNat (s u).natAbs ≤ cnt / 64) || decide ((s u).natAbs % B ^ (cnt / 64) ≠ 0) ||
+            decide (((s u).natAbs / B ^ (cnt / 64) % B) % 2 ^ (cnt % 64) ≠ 0)) = true := (negate_iff _ _ ha).mpr hm
+        obtain ⟨hr0, hval⟩ := neg_mod_pow hm
+        have hrlt : (s u).natAbs % B ^ (cnt / 64 + 1) < B ^ (cnt / 64 + 1) := Nat.mod_lt _ (Bpow_pos _)
+        obtain ⟨e1, e2⟩ := sub_one_add_one hrlt hr0
+        simp only [hneg, not_true_eq_false, if_false, e1, e2, hval, hm, hadj _ hm, if_true]
+        congr 2
+        unfold uiRem
+        generalize siz (s u) = sz at *
+        generalize (2 ^ cnt - (s u).natAbs % 2 ^ cnt) = m at *
+        have hs' := hsd.mp hs
+        rcases hdir with rfl | rfl <;> simp only [Int.reduceNeg, Int.reduceEq, true_and, false_and, or_false, false_or, if_true, if_false] at hs' ⊢ <;> split_ifs <;> omega
+    · have hnadj : ∀ m, ¬ uiAdjust dir m (siz (s u)) := fun m h => hs (hsd.mpr h.2)
+      simp only [hs, not_false_eq_true, if_true, hnadj, if_false]
+      by_cases hsz : sizeNat (s u).natAbs ≤ cnt / 64
+      · have hlt := lt_two_pow_of_size hsz
+        simp only [hsz, if_true, Nat.mod_eq_of_lt hlt, ha, if_false]
+        congr 1
+        have hv : s u = uiRem dir (siz (s u)) (s u).natAbs := by
+          unfold uiRem
+          generalize siz (s u) = sz at *
+          have hs' : ¬ (dir = -1 ∧ sz < 0 ∨ dir = 1 ∧ sz ≥ 0) := fun h => hs (hsd.mpr h)
+          rcases hdir with rfl | rfl <;> simp only [Int.reduceNeg, Int.reduceEq, true_and, false_and, or_false, false_or, if_true, if_false] at hs' ⊢ <;> omega
+        rw [← hv]
+        by_cases hwu : w = u
+        · subst hwu; simp only [if_true]; funext j; simp only [Store.set_apply]; split_ifs with h <;> simp [h]
+        · simp only [hwu, if_false]
+      · simp only [hsz, if_false, mod_Bsucc_mod]
+        congr 2
+        unfold uiRem
+        generalize siz (s u) = sz at *
+        generalize (s u).natAbs % 2 ^ cnt = m at *
+        have hs' : ¬ (dir = -1 ∧ sz < 0 ∨ dir = 1 ∧ sz ≥ 0) := fun h => hs (hsd.mpr h)
+        rcases hdir with rfl | rfl <;> simp only [Int.reduceNeg, Int.reduceEq, true_and, false_and, or_false, false_or, if_true, if_false] at hs' ⊢ <;> split_ifs <;> omega
 
 end Mpir.DivZ
